@@ -40,14 +40,16 @@ def expected_clamp(rank, c, lo, hi):
     return rank[c]
 
 
-def check(tier):
-    rep = Report("C10", tier, "proof")
+def declare(rep):
     rep.rule("C10.compile", "clamp<probe<S,N>> lookup harness compiles", floor=8)
     rep.rule("C10.one-query", "exactly one backend query, executed unconditionally, on the view's own backend", floor=8)
     rep.rule("C10.dep", "query argument k depends on {c_k, lo_k, hi_k} only, through comparisons and selects", floor=16)
     rep.rule("C10.ord", "on every weak ordering of (c_k, lo_k, hi_k) with lo<=hi the argument equals clamp(c_k, lo_k, hi_k)", floor=100)
     rep.rule("C10.pred", "comparison predicates have the coordinate type's signedness / are floating comparisons", floor=16)
     rep.rule("C10.out", "result component q is exactly component q of the queried backend value", floor=16)
+
+
+def run(rep, tier):
     Ns = (1, 2, 3) if tier == "quick" else (1, 2, 3, 4)
     hs = [make(N, s) for N in Ns for s in ("size_t", "unsigned", "int", "float", "double")]
     harness.build(hs, "c10")
@@ -118,6 +120,13 @@ def check(tier):
                 rep.fail("C10.out", qi, FILE, "result is %s, expected the backend value's component %d" % (ir.show(t) if t else "never written", q))
             else:
                 rep.ok("C10.out", qi)
+    return hs
+
+
+def check(tier):
+    rep = Report("C10", tier, "proof")
+    declare(rep)
+    hs = run(rep, tier)
     rep.assumptions = ["NaN coordinates excluded (as in the property)", "box satisfies lo <= hi",
                        "memory safety over array storage follows by composing with C01 (index map into the allocated range)"]
     rep.extra["instantiations"] = [h.name for h in hs]
@@ -125,6 +134,6 @@ def check(tier):
         "Abstract evaluation over order types (D-ord) of the optimised, loop-free IR of clamp<probe<S,N>>::at for N in %s and "
         "S in {size_t, unsigned, int, float, double}: per component all 13 weak orderings of (c, lo, hi) restricted to lo<=hi are evaluated "
         "on the select/compare tree that feeds the single backend query; plus dependence, predicate-signedness and result-routing facts. "
-        "Complete for all coordinate values of each instantiation because the argument touches its inputs only through comparisons." % (list(Ns),),
+        "Complete for all coordinate values of each instantiation because the argument touches its inputs only through comparisons." % (sorted({h.meta["N"] for h in hs}),),
         "bin/vcheck C10 (clang++ -O2 -emit-llvm | build/irdump | engine/ir.py OrdEval)",
         ["clang 14 -O2 IR faithful to source", "engine/ir.py term builder and OrdEval"], exhaustive=True)
